@@ -185,7 +185,20 @@ func (s *spend) tx() *wire.MsgTx {
 	if len(s.witness) > 0 {
 		in.Witness = wire.TxWitness(s.witness)
 	}
-	tx.AddTxIn(in)
+	if s.ctx.NIn == 2 {
+		// a second input (another outpoint, its own sequence); the executing one sits at ctx.Idx
+		other := wire.NewTxIn(wire.NewOutPoint(&fundingPrev, 7), nil, nil)
+		other.Sequence = s.ctx.OSeq
+		if s.ctx.Idx == 1 {
+			tx.AddTxIn(other)
+			tx.AddTxIn(in)
+		} else {
+			tx.AddTxIn(in)
+			tx.AddTxIn(other)
+		}
+	} else {
+		tx.AddTxIn(in)
+	}
 	tx.AddTxOut(wire.NewTxOut(s.amount-1000, []byte{txscript.OP_TRUE}))
 	return tx
 }
@@ -196,14 +209,15 @@ func (s *spend) replay() map[string]any {
 		w[i] = hex.EncodeToString(x)
 	}
 	return map[string]any{"pkScript": hex.EncodeToString(s.pkScript), "sigScript": hex.EncodeToString(s.sigScr),
-		"witness": w, "amount": s.amount, "flags": uint32(s.flags), "tx_version": s.ctx.Ver, "locktime": s.ctx.Lock, "sequence": s.ctx.Seq}
+		"witness": w, "amount": s.amount, "flags": uint32(s.flags), "tx_version": s.ctx.Ver, "locktime": s.ctx.Lock, "sequence": s.ctx.Seq,
+		"inputs": s.ctx.NIn, "input_index": s.ctx.Idx, "other_sequence": s.ctx.OSeq}
 }
 
 func (s *spend) engine() (*txscript.Engine, error) {
 	tx := s.tx()
 	fetcher := txscript.NewCannedPrevOutputFetcher(s.pkScript, s.amount)
 	hc := txscript.NewTxSigHashes(tx, fetcher)
-	return txscript.NewEngine(s.pkScript, tx, 0, s.flags, nil, hc, s.amount, fetcher)
+	return txscript.NewEngine(s.pkScript, tx, s.ctx.Idx, s.flags, nil, hc, s.amount, fetcher)
 }
 
 // stepRes is the observation of one real run.
@@ -467,7 +481,7 @@ func (b *binder) runProgCase(pc *progCase, sp *spend, cc *Conc) error {
 		return m
 	}
 	if r.panicked != "" {
-		c.Violation("panic:"+lastOp, "script verification panicked: "+b.describe(pc)+": "+strings.SplitN(r.panicked, "\n", 2)[0], rep(map[string]any{"panic": r.panicked}))
+		c.Violation("panic:"+lastOp+sigShapeOf(pc), "script verification panicked: "+b.describe(pc)+": "+strings.SplitN(r.panicked, "\n", 2)[0], rep(map[string]any{"panic": r.panicked}))
 		return nil
 	}
 	specOK := g.v == "ok"
@@ -553,6 +567,22 @@ func (b *binder) failsWithSuffix(pc *progCase, P int) (string, string, error) {
 			fmt.Sprintf("token %d (%s) must fail (%s) but Step succeeded when more tokens follow it", n, opName(last), e.s.err), nil
 	}
 	return "", "", nil
+}
+
+// sigShapeOf names the signature encoding class involved in a case (":shapeNN"
+// for the malformed DER shapes), for the key of a panic.
+func sigShapeOf(pc *progCase) string {
+	for _, e := range pc.init {
+		if e.T == "sig" && e.B[1] >= 10 && e.B[1] < 64 {
+			return fmt.Sprintf(":shape%d", e.B[1])
+		}
+	}
+	for _, t := range pc.prog {
+		if t.Op == "PUSH" && t.E.T == "sig" && t.E.B[1] >= 10 && t.E.B[1] < 64 {
+			return fmt.Sprintf(":shape%d", t.E.B[1])
+		}
+	}
+	return ""
 }
 
 func sep(s string) string {
